@@ -1731,6 +1731,12 @@ impl DnsOutgoing {
         self.id = id;
     }
 
+    /// Marks this message as a unicast response, so that its `id` is written
+    /// on the wire. Multicast messages always carry ID 0.
+    pub fn set_unicast(&mut self) {
+        self.multicast = false;
+    }
+
     pub const fn is_query(&self) -> bool {
         (self.flags & FLAGS_QR_MASK) == FLAGS_QR_QUERY
     }
